@@ -14,7 +14,7 @@ OWNED = {
     "C05": {"C05"},
     "C06": {"C06"},
     "C07": {"C07"},
-    "C08": {"C08"},
+    "C08": {"C08", "CRASH"},
     "C09": {"C09"},
     "C10": {"C10", "C02", "CRASH"},
 }
